@@ -39,7 +39,7 @@ def gen(tier, rng, shard, nshards):
         else:
             yield {"mode": "pinv", "m": m, "n": n, "dt": dt, "seed": S.seed(rng), "alg": S.pick(rng, [OMIT, "Auto", "LSTSQ", "CG", "CG"]),
                    "wide_rhs": bool(rng.random() < 0.25),
-                   "kind": S.pick(rng, ["Dense", "Dense", "Generic", "Identity", "Diagonal", "ScalarMul", "Permutation", "Product", "ProductRect", "ProductRect", "SelfAdjoint", "PSD"]),
+                   "kind": S.pick(rng, ["Dense", "Dense", "Generic", "Identity", "Diagonal", "ScalarMul", "Permutation", "Product", "ProductRect", "ProductRect", "SelfAdjoint", "PSD", "ViewOfLazy", "ViewOfLazy"]),
                    "cols": int(S.pick(rng, [0, 1, 3, -1])), "consistent": bool(rng.random() < 0.5)}
 
 
@@ -96,6 +96,21 @@ def operator(case, rng):
         f1 = {"k": S.pick(rng, ["Dense", "Generic"]), "shape": [m, p_], "dt": dt, "seed": S.seed(rng), "gen": "svals", "svals": lin(1.0, 2.0, min(m, p_))}
         f2 = {"k": "Dense", "shape": [p_, n], "dt": dt, "seed": S.seed(rng), "gen": "svals", "svals": lin(1.0, 2.0, min(p_, n))}
         return {"k": "Product", "via": S.pick(rng, ["ctor", "fn"]), "args": [f1, f2]}
+    if kind == "ViewOfLazy":
+        # the operator is a lazy transpose / adjoint of another combinator's output (Product, Sum, matrix-free, Sliced): pinv of a
+        # view of X, for real and complex X
+        inner = {"k": S.pick(rng, ["Dense", "Generic"]), "shape": [n, m], "dt": dt, "seed": S.seed(rng), "gen": "svals", "svals": sv}
+        base = S.pick(rng, ["Generic", "Product", "Sum", "Sliced"])
+        if base == "Generic":
+            X = dict(inner, k="Generic")
+        elif base == "Product":
+            X = {"k": "Product", "via": "ctor", "args": [{"k": "Dense", "shape": [n, n], "dt": dt, "seed": S.seed(rng), "gen": "orth"}, inner]}
+        elif base == "Sum":
+            X = {"k": "Sum", "via": "ctor", "args": [inner, dict(inner, k="Dense", seed=int(inner["seed"]))]}  # (2 X: same singular vectors)
+        else:
+            big = {"k": "Dense", "shape": [n + 1, m + 2], "dt": dt, "seed": S.seed(rng), "gen": "svals", "svals": lin(1.0, 4.0, min(n + 1, m + 2))}
+            X = {"k": "Sliced", "via": "fn", "slices": [{"s": [0, n, None]}, {"s": [1, m + 1, None]}], "arg": big}
+        return {"k": S.pick(rng, ["Adjoint", "Transpose"]), "via": S.pick(rng, ["ctor", "fn"]), "arg": X}
     if kind == "Product":
         # A = U0 @ leaf with a unitary left factor (keeps the singular values)
         U0 = {"k": "Dense", "shape": [m, m], "dt": dt, "seed": S.seed(rng), "gen": "orth"}
